@@ -33,6 +33,8 @@ type sink struct {
 	mk     func(s string) templ.Component
 	ctx    func(s string) context.Context
 	expect func(s string) string
+	// mayOmit: the value may be left out of the document altogether (value types templ.Attributes ignores)
+	mayOmit bool
 	// derived from the benign render
 	benign []htmltok.Token
 	plain  string
@@ -97,6 +99,9 @@ var sinks = []*sink{
 	{name: "spread/KeyValue[string,bool]", mk: SpreadKV},
 	{name: "spread/in-conditional", mk: SpreadCond},
 	{name: "spread/among-static-attrs", mk: SpreadTwo},
+	{name: "spread/SafeURL-and-templ.URL", mk: SpreadSafeURL, mayOmit: true},
+	{name: "spread/value-types-not-rendered-today", mk: SpreadOtherTypes, mayOmit: true},
+	{name: "spread/three-rendered-types-side-by-side", mk: SpreadKeyFromValue},
 	{name: "jsonscript/id", mk: JSONID},
 	{name: "jsonscript/type", mk: JSONType},
 	{name: "jsonscript/nonce-from-string", mk: JSONNonce},
@@ -295,7 +300,7 @@ func main() {
 		}
 		r := htmltok.Tokenize(html)
 		k.benign = r.Tokens
-		if strings.Count(html, k.exp(mark)) < 1 || r.Unterminated {
+		if (strings.Count(html, k.exp(mark)) < 1 && !k.mayOmit) || r.Unterminated {
 			vlib.Fatal("sink %s: benign render %q does not show the marker", k.name, html)
 		}
 		if pr := k.compare(mark, html); pr != "" {
